@@ -68,7 +68,7 @@ Proof.
       all: try (apply in_map_iff in Hin; destruct Hin as (? & <- & _); discriminate).
       all: try (destruct (o_nextseq o); cbn in Hin; intuition (subst; discriminate)).
       all: try (destruct (o_qcut o) as [[? ?]|]; cbn in Hin; intuition (subst; discriminate)).
-      all: try (destruct (o_poly_a o); cbn in Hin; intuition (subst; discriminate)).
+      all: try (destruct (o_poly_a o), (o_poly_t o); cbn in Hin; intuition (subst; discriminate)).
       all: try (destruct (o_length o); cbn in Hin; intuition (subst; discriminate)).
       all: try (destruct (o_trim_n o); cbn in Hin; intuition (subst; discriminate)).
       all: try (destruct (o_length_tag o); cbn in Hin; intuition (subst; discriminate)).
@@ -108,7 +108,7 @@ Proof. intros H. cbn [filters_of_kind]. rewrite H. auto. Qed.
 
 (** the same option set without demultiplexing: same modified read, same filter decisions *)
 Definition undemux (o : options) : options :=
-  mkO (o_cuts o) (o_nextseq o) (o_qcut o) (o_qbase o) (o_adapters o) (o_times o) (o_action o) (o_revcomp o) (o_poly_a o)
+  mkO (o_cuts o) (o_nextseq o) (o_qcut o) (o_qbase o) (o_adapters o) (o_times o) (o_action o) (o_revcomp o) (o_poly_a o) (o_poly_t o)
       (o_length o) (o_trim_n o) (o_length_tag o) (o_strip_suffix o) (o_prefix o) (o_suffix o) (o_zero_cap o)
       (o_min_len o) (o_max_len o) (o_max_n o) (o_float_filters o) (o_casava o) (o_discard_trimmed o) (o_discard_untrimmed o)
       (o_untrimmed_output o) (o_too_short_output o) (o_too_long_output o) false (o_info_file o).
@@ -140,7 +140,7 @@ Qed.
 (** ---- C17, known finding F17 on the faithful model: -u 5 -a TTTTGGGG on AAAACCCCTTTTGGGGACGT; the adapter is
     found at [7,15) of the cut read, the info row shows original[7:15] = ACCCCTTT instead of TTTTGGGG *)
 Definition f17_o : options :=
-  mkO [5] None None 33 [PSingle [49] (mkAd Back [84;84;84;84;71;71;71;71] false false true 3 false) [0;0;0;0;0;0;0;0;0]] 1 ATrim false false
+  mkO [5] None None 33 [PSingle [49] (mkAd Back [84;84;84;84;71;71;71;71] false false true 3 false) [0;0;0;0;0;0;0;0;0]] 1 ATrim false false false
       None false None [] [] [] false None None None [] false false false false false false false true.
 Definition f17_r : read := mkR [114] [65;65;65;65;67;67;67;67;84;84;84;84;71;71;71;71;65;67;71;84] None.
 Lemma f17_witness :
